@@ -196,8 +196,10 @@ def run_check(prop: str, tier: str) -> int:
         print(f"VIOLATION property={prop} replay={path}")
 
     for ent in known:
-        if ent.get("status") == "open" and ent["property"] == prop and known_hit.get(ent["id"]):
-            print(f"KNOWN-FINDING: property={prop} {ent['what']} (hit in {known_hit[ent['id']]} runs)")
+        if ent.get("status") == "open" and known_hit.get(ent["id"]):
+            via = "" if ent["property"] == prop else f"[owned by {ent['property']}] "
+            print(f"KNOWN-FINDING: property={prop} {via}{ent['what']} "
+                  f"(hit in {known_hit[ent['id']]} runs)")
 
     # ---- 4. determinism spot check
     det = {"in_process": 0, "fresh_interpreter": 0, "mismatch": 0}
